@@ -48,6 +48,8 @@ type c18Share struct {
 }
 
 type c18Env struct {
+	violMu sync.Mutex
+	viol   string // first contract violation seen by apply
 	in     c18In
 	insp   crypto.ThresholdSignatureInspector
 	part   crypto.ThresholdSignatureParticipant
@@ -197,6 +199,14 @@ func (env *c18Env) apply(o c18Op) c18Res {
 		return c18Res{Kind: "b", B1: env.insp.EnoughShares(), Err: "ENone"}
 	case "vs":
 		b, err := env.insp.VerifyShare(o.I, sh())
+		// VerifyShare is a pure check: true exactly for the genuine share of signer I, whatever is stored
+		if want := o.I >= 0 && o.I < env.in.N && o.S == 2*o.I; err == nil && b != want {
+			env.violMu.Lock()
+			if env.viol == "" {
+				env.viol = fmt.Sprintf("VerifyShare(%d, share #%d) = %v although that share is%s the genuine share of signer %d", o.I, o.S, b, map[bool]string{true: "", false: " not"}[want], o.I)
+			}
+			env.violMu.Unlock()
+		}
 		return c18Res{Kind: "b", B1: b, Err: c18Err(err)}
 	case "vts":
 		b, err := env.insp.VerifyThresholdSignature(env.sigArg[o.G])
@@ -719,6 +729,9 @@ func c18Run(c Case) (Result, error) {
 			note(r)
 			items = append(items, fmt.Sprintf("(%s, %s)", env.coqOp(o), env.coqRes(r)))
 			obs = append(obs, map[string]any{"op": o, "res": r})
+		}
+		if env.viol != "" {
+			return Result{}, implViolation("%s (after the calls %v)", env.viol, ops[:len(items)])
 		}
 		term := fmt.Sprintf("mkCase %d %d %s [%s] [] %s", in.N, in.T, my, strings.Join(items, "; "), cqbool(crashed))
 		return Result{Coq: term, Key: string(c.Input), Nontrivial: nontrivial || crashed, Obs: obs}, nil
